@@ -62,6 +62,14 @@ func init() {
 		p.QuickMs, p.ThorMs = 40_000, 600_000
 		props[p.ID] = p
 	}
+	for _, p := range []*propDef{
+		{ID: "C13", Engine: "store", Level: "exploration", Rule: "runs = generated store histories (0-6 plans with varied field values; 12-40 operations Create / Update* / Read / Exists / Search / List / Delete / Reopen by one client compared operation by operation with a reference model, every fourth index 2-3 concurrent clients whose history is checked for linearizability with porcupine) against the real SQLite vault (in-memory and file-backed) and the CosmosDB vault over the package's fake client, under the seeded scheduler; non-trivial = at least three vault operations executed; distinct = distinct operation/result traces"},
+		{ID: "C15", Engine: "store", Level: "exploration", Rule: "runs = generated store histories biased towards Exists / Search / List with every filter combination, limits and consumers that drain or cancel, compared with a reference filter over the model store; non-trivial = a filter matched a proper non-empty subset of the stored plans or a consumer cancelled a stream; distinct = distinct operation/result traces"},
+		{ID: "C14", Engine: "store", Level: "fault_enumeration", Mode: "with-kill", Rule: "two passes. (1) store histories biased towards Create (unserialisable request at a seeded position, duplicate ids, cosmos item errors) and Delete, compared with the model and with direct row counts; (2) createkill: a child process performs Create or Delete on a real file-backed SQLite store holding 0-2 other plans and is SIGKILLed, or gets ENOSPC/EIO, on entry to the n-th pwrite64 / fsync issued during the operation (strace syscall injection; quick: sampled n, thorough: every n), then a fresh process opens the store and checks all-or-nothing, the other plans and acknowledged-implies-durable; evaluations = store histories + injected child runs; non-trivial = a Create with a fault / a duplicate / a Delete was executed, or an injected child run; distinct = distinct traces / distinct (operation, fault kind, call, n, outcome)"},
+	} {
+		p.QuickMs, p.ThorMs = 30_000, 400_000
+		props[p.ID] = p
+	}
 	crashRule := func(nt string) string {
 		return "one batch index = one generated execution: it is first run uninterrupted to learn W, its number of durable writes, then re-run with a process death immediately before write w (even indices: every w in 1..W, FIFO schedule, small plans; odd indices: sampled w, random schedule policy and plan size), a sample of those with a second death during recovery (thorough: every write of the recovery run for the sampled first crashes); evaluations counts every simulated run; a run is non-trivial if " + nt + "; distinct = distinct trace signatures among the non-trivial runs; exhaustive is false because only the crash-point dimension of the enumerated executions is complete (see crash_points_enumerated / executions_fully_enumerated)"
 	}
@@ -312,6 +320,29 @@ func check(id, tier string) int {
 	}
 	wg.Wait()
 
+	if p.Mode == "with-kill" {
+		// second pass: createkill engine, same budget
+		kres := make([]*workerResult, nw)
+		var wg2 sync.WaitGroup
+		for k := 0; k < nw; k++ {
+			wg2.Add(1)
+			go func(k int) {
+				defer wg2.Done()
+				job := map[string]any{"engine": "createkill", "property": id, "tier": tier, "baseSeed": baseSeed, "offset": k, "stride": nw,
+					"maxRuns": maxRuns, "wallMs": wall, "replayDir": replayDir, "minimize": 0}
+				res, crashed, tail, _ := runWorker(simBin, job, dir, 500+k, "2")
+				if crashed {
+					mu.Lock()
+					deaths = append(deaths, death{-1, "createkill worker: " + tail})
+					mu.Unlock()
+					return
+				}
+				kres[k] = res
+			}(k)
+		}
+		wg2.Wait()
+		results = append(results, kres...)
+	}
 	total := &workerResult{Faults: map[string]int{}, Probes: map[string]int{}, Extra: map[string]int{}}
 	sigs := map[string]bool{}
 	for _, r := range results {
@@ -431,10 +462,7 @@ func check(id, tier string) int {
 		"process_deaths":      deathNotes,
 		"workers":             nw,
 		"detsel": map[string]any{"rewritten_selects": dsRep.Rewritten, "refused": dsRep.Refused, "files_scanned": dsRep.Files, "clause_orders_drawn": total.Detsel},
-		"components": map[string]any{
-			"real": []string{"coercion.Workstream", "internal/execute (Start, runPlan, Wait, recovery)", "internal/execute/sm (all states, finalStates, recovery fix-ups)", "sm/actions (retry loop, timeout race, type check)", "workflow (Validate, Defaults), walk, registry, context", "gostdlib statemachine / worker pool / sync.Group / ShardedMap / exponential back-off", "workflow/storage/sqlite on zombiezen+modernc SQLite (in-memory)"},
-			"stub": []string{"plugins (scripted sim plugins: the environment)", "wall clock (testing/synctest fake clock)", "process death (generation switch: writes of a dead incarnation are dropped)"},
-		},
+		"components": componentsOf(p.Engine, p.Mode),
 		"known_findings_hit": knownHit,
 		"exhaustive":         false,
 	}
@@ -479,6 +507,21 @@ func check(id, tier string) int {
 		return 2
 	}
 	return exit
+}
+
+func componentsOf(engine, mode string) map[string]any {
+	if engine == "store" {
+		real := []string{"workflow/storage/sqlite (creator, reader, updater, deleter, schema) on zombiezen+modernc SQLite, in-memory and file-backed in a temp directory", "workflow/storage/cosmosdb (creator, reader, updater, deleter, encoders) through the verif-tagged NewFakeVault hook", "plugins/registry (request/response decoding)", "gostdlib worker pool (stream goroutines)"}
+		stub := []string{"Azure CosmosDB service: the package's own in-memory fake client (ignores ORDER BY, status/group predicates and LIMIT; not transactional across partitions)", "wall clock (testing/synctest fake clock)"}
+		if mode == "with-kill" {
+			real = append(real, "createkill pass: real child process, real file system, real SIGKILL / errno at a counted system call (strace injection)")
+		}
+		return map[string]any{"real": real, "stub": stub}
+	}
+	return map[string]any{
+		"real": []string{"coercion.Workstream", "internal/execute (Start, runPlan, Wait, recovery)", "internal/execute/sm (all states, finalStates, recovery fix-ups)", "sm/actions (retry loop, timeout race, type check)", "workflow (Validate, Defaults), walk, registry, context", "gostdlib statemachine / worker pool / sync.Group / ShardedMap / exponential back-off", "workflow/storage/sqlite on zombiezen+modernc SQLite (in-memory)"},
+		"stub": []string{"plugins (scripted sim plugins: the environment)", "wall clock (testing/synctest fake clock)", "process death (generation switch: writes of a dead incarnation are dropped)"},
+	}
 }
 
 func firstPanicLine(s string) string {
